@@ -176,6 +176,9 @@ let handle_line line =
       let id = next t in
       let le = next t = "1" in
       let aname = next t in
+      (* "A>B": the implementation assembled the same value for A first; the model compiles for B *)
+      let aname = match Stdlib.String.index_opt aname '>' with
+        | Some i -> Stdlib.String.sub aname (i + 1) (Stdlib.String.length aname - i - 1) | None -> aname in
       let ai = try Hashtbl.find arches aname with Not_found -> failwith ("unknown arch " ^ aname) in
       let def = next_n t in
       let ng = next_int t in
